@@ -1,3 +1,6 @@
+(* STATUS NOTE (third session): remarks of the form "NOT PROVED" in the comments below were written when the first theorems of this
+   file were stated; theorems added further down in this file supersede them.  The current status of the property is the row of
+   DESIGN.md section 14.4; the premises that remain are listed in DESIGN.md section 14.9. *)
 (* C13 — Equalities are never lost and old handles stay valid.
    Model: EGraph/Model.v, the Gallina mirror of src/egraph/*.rs whose observables agree with the
    implementation after every operation (correspondence stream `egs`).
